@@ -265,6 +265,8 @@ def run(facts, tier):
             res.add(Finding("R07-1", "document|" + prop, "node-sets returned by query are not guaranteed to be %s (see C07)" % prop, None, None, {}))
     c08.r08_3(facts, res)
     c08.r08_4(facts, res)
+    c08.r08_7(facts, res)
+    c08.r08_8(facts, res)
     c07.fresh_key_rule(facts, res, "R07-5")
     # "for every document" includes documents edited through the DOM: positions, unions and order rest on the order keys
     c14.c14_4(facts, res, "C05-order")
